@@ -264,8 +264,27 @@ impl fmt::Display for VerifyError {
 /// `Verified<T>` can be obtained via [`Verify::into_verified`] or
 /// [`Verify::assume_verified`].
 #[derive(Clone, Debug, Eq, PartialEq)]
-#[cfg_attr(feature = "serde", derive(Deserialize, Serialize))]
+#[cfg_attr(feature = "serde", derive(Serialize))]
 pub struct Verified<T>(T);
+
+/// Deserializes the inner value and verifies it (same format as the derived
+/// implementation for a newtype struct). A `Verified<T>` must not be obtainable
+/// without verification in safe code.
+#[cfg(feature = "serde")]
+impl<'de, T> Deserialize<'de> for Verified<T>
+where
+    T: Verify + Deserialize<'de>,
+{
+    fn deserialize<D: serde::Deserializer<'de>>(deserializer: D) -> Result<Self, D::Error> {
+        #[derive(Deserialize)]
+        #[serde(rename = "Verified")]
+        struct Unverified<U>(U);
+        let Unverified(inner) = Unverified::<T>::deserialize(deserializer)?;
+        inner
+            .into_verified()
+            .map_err(|(_, e)| serde::de::Error::custom(e))
+    }
+}
 
 impl<T> std::ops::Deref for Verified<T> {
     type Target = T;
